@@ -7,6 +7,7 @@ KIND_NAMES = {
     401: 'session/life: start/stop/verify commands interleaved with allocation, verification, piece-write and stop-announce results in any order and with changes to the files while stopped, vs Life.v (exact) + truthfulness monitor',
     101: 'session/leech: download path of the stepped event loop (message, write-result, snub, disconnect handlers) under scripted honest/hostile peers vs Leech.v (piece assignments validated, everything else predicted)',
     102: 'C01/piecedl: piecedownloader vs PieceDl.v',
+    105: 'session/webseed: download whose honest source is a web seed (local HTTP server with range requests), alone or next to a peer that unchokes and never delivers or that chokes: completes, stored bytes equal the content',
     103: 'C01/verifier: verifier.Run over in-memory files that may be damaged or shorter than the metainfo says, neighbouring pieces often identical, vs PieceDl.run_verifier',
     1301: 'C13/infodl: infodownloader vs InfoDl.v',
     1302: 'C13/magnet: magnet.New(String()) vs Magnet.v (render then parse)',
@@ -66,7 +67,7 @@ TRUSTED_COMMON = [
 
 PROPS = {
     'C01': {
-        'kinds': {101: {'quick': 1500, 'thorough': 40000}, 102: {'quick': 800, 'thorough': 20000}, 103: {'quick': 3000, 'thorough': 60000}},
+        'kinds': {101: {'quick': 1500, 'thorough': 40000}, 102: {'quick': 800, 'thorough': 20000}, 103: {'quick': 3000, 'thorough': 60000}, 105: {'quick': 150, 'thorough': 3000}},
         'trusted': ['SHA-1: a buffer whose digest equals the recorded hash is the recorded content (collision resistance)'],
         'assumptions': [],
     },
@@ -82,12 +83,12 @@ PROPS = {
     },
     'C08': {
         'kinds': {1102: {'quick': 2500, 'thorough': 60000}, 1103: {'quick': 48, 'thorough': 600}, 101: {'quick': 1500, 'thorough': 40000}, 1303: {'quick': 1500, 'thorough': 40000}, 303: {'quick': 1500, 'thorough': 30000}},
-        'trusted': ['the dispatch of torrent.run() is mirrored by hand in VLoop.PumpEx', 'Go runtime: a panic in a handler is caught by the harness and reported as a crash; a handler that does not return within the per-case limit is reported as a hang'],
+        'trusted': ['the dispatch of torrent.run() is generated from its source (bin/gen_dispatch.py) for the stepped loop', 'Go runtime: a panic in a handler is caught by the harness and reported as a crash; a handler that does not return within the per-case limit is reported as a hang'],
         'assumptions': [],
     },
     'C10': {
-        'kinds': {101: {'quick': 2500, 'thorough': 60000}, 102: {'quick': 800, 'thorough': 20000}},
-        'trusted': ['the dispatch of torrent.run() is mirrored by hand in VLoop.PumpEx', 'WriteCacheSize is large enough that the write-cache manager never defers a piece download in the generated scenarios'],
+        'kinds': {101: {'quick': 2500, 'thorough': 60000}, 102: {'quick': 800, 'thorough': 20000}, 105: {'quick': 150, 'thorough': 3000}},
+        'trusted': ['the dispatch of torrent.run() is generated from its source (bin/gen_dispatch.py) for the stepped loop', 'WriteCacheSize is large enough that the write-cache manager never defers a piece download in the generated scenarios'],
         'assumptions': ['the history was accepted by the model (s_bad = 0), which the correspondence establishes per generated history'],
     },
     'C12': {
